@@ -30,9 +30,46 @@ X = frozenset([('sym', 'X')])
 Y = frozenset([('sym', 'Y')])
 
 
+def every_sample_counted(prog, rep, keys):
+    """In a moment / co-moment estimator every sample takes part: the accumulator updates inside the data loop may not be control
+    dependent on a comparison of the data (a `continue` for samples that "change nothing" skips the count update too)."""
+    n = 0
+    for k in keys:
+        f = prog.func(k)
+        if f is None:
+            continue
+        bodies = [f] + [prog.func(b.key) for b in prog.pdb.closures_of(k)]
+        for g in bodies:
+            if g is None:
+                continue
+            for li in g.loop_info():
+                accs = [st for st in g.stores() if st.bb in li['blocks'] and tag(st.target) == 'local' and st.target in subterms(st.value)]
+                if not accs:
+                    continue
+                n += 1
+                key = 'every-sample:%s' % short(g.body.key)
+                bad = []
+                for st in accs:
+                    for c in g.control_conds(st.bb):
+                        if tag(c) == 'bin' and len(c) > 4 and c[4] in ('f64', 'f32') and c[1] in ('Eq', 'Ne', 'Lt', 'Le', 'Gt', 'Ge'):
+                            bad.append((st, c))
+                if bad:
+                    st, c = bad[0]
+                    rep.viol('every-sample', key, 'the update %s := %s is skipped when %s decides so: samples for which the condition holds are not counted, '
+                             'which corrupts every later update (n, the running means and the co-moment stay behind)' % (
+                                 show(st.target), show(st.value)[:50], show(c)[:60]), site_of(st.span) or site_of(g.body))
+                else:
+                    rep.ok('every-sample', key, '%d accumulator updates execute on every iteration' % len(accs))
+    return n
+
+
 def run(prog, rep, tier, repo):
     pdb = prog.pdb
     eng = ElemEngine(prog)
+    # ------------------------------------------------------------------ D0 every sample is counted
+    every_sample_counted(prog, rep, sorted(k for k in pdb.bodies if pdb.bodies[k].kind != 'closure' and
+                                          (k.startswith(ST + 'covariance::') or k.startswith(ST + 'moments::'))))
+    rep.floor('every-sample', 1, 'online covariance loop')
     # ------------------------------------------------------------------ D1 Bessel divisor
     table = [('moments::var', 0), ('moments::sample_var', 1), ('covariance::covariance', 0), ('covariance::sample_covariance', 1),
              ('covariance::sample_covariance_onepass', 1), ('covariance::sample_covariance_online', 1)]
